@@ -156,6 +156,9 @@ pub struct Mach {
     /// registers written by the current instruction
     pub written: Vec<Reg>,
     pub initial_nodes_for: fn(u32) -> usize,
+    /// handles the harness keeps alive until the next instruction (e.g. roots imported
+    /// from a mutated file, so that the audit sees them)
+    pub scratch: Vec<F>,
 }
 
 impl Mach {
@@ -175,6 +178,7 @@ impl Mach {
             x: Extra::default(),
             written: vec![],
             initial_nodes_for: initial_nodes,
+            scratch: vec![],
         }
     }
 
@@ -185,7 +189,8 @@ impl Mach {
     pub fn snapshot(&self) -> Snapshot {
         let regs = &self.regs;
         let substs = &self.substs;
-        let extra = self.x.handles();
+        let mut extra = self.x.handles();
+        extra.extend(self.scratch.iter());
         self.mref.with_manager_shared(|m| {
             let n = m.num_levels();
             let mut terms = HashMap::new();
@@ -820,6 +825,7 @@ impl Mach {
         }
         self.x.clear();
         self.written.clear();
+        self.scratch.clear();
         let (ret, before, after, terms) = self.mref.with_manager_shared(|m| {
             let b = m.num_inner_nodes() + m.num_terminals();
             let r = m.gc();
@@ -931,6 +937,7 @@ fn internal_refs(s: &Snapshot) -> Result<Vec<usize>, String> {
 impl Machine for Mach {
     fn step(&mut self, ins: &Instr, model: &mut Model, ctx: &mut RunCtx) {
         self.written.clear();
+        self.scratch.clear();
         let stepno = ctx.step;
         ctx.logf(|| format!("step {} {:?}", stepno, ins));
         ctx.stats.bump("instr.total");
@@ -970,6 +977,7 @@ impl Machine for Mach {
         }
         self.x.clear();
         self.written.clear();
+        self.scratch.clear();
         let (live, live_terms) = self.mref.with_manager_shared(|m| {
             m.gc();
             (m.num_inner_nodes(), m.num_terminals())
